@@ -1527,9 +1527,14 @@ class _Ctx:
         if short in ev.prog.class_index and (name.startswith("genjax") or "." not in name):
             # Cls(a, field=b) is Cls(a, b): keywords naming the next dataclass fields become positional
             cis_ = ev.prog.class_index[short]
-            if kwargs and "**" not in kwargs and len(cis_) == 1 and cis_[0].fields and not any(is_t(x, "star") for x in args):
+            flds_ = []
+            if len(cis_) == 1:
+                init_ = ev.prog.find_method(cis_[0], "__init__")
+                # an explicit __init__ names the constructor's parameters; a dataclass's fields do otherwise
+                flds_ = [a_.arg for a_ in init_[1].args.args][1:] if init_ is not None and not init_[1].args.vararg else list(cis_[0].fields or [])
+            if kwargs and "**" not in kwargs and flds_ and not any(is_t(x, "star") for x in args):
                 args, kwargs = list(args), dict(kwargs)
-                for fld in cis_[0].fields[len(args):]:
+                for fld in flds_[len(args):]:
                     if fld in kwargs:
                         args.append(kwargs.pop(fld))
                     else:
